@@ -77,6 +77,27 @@ CLAIMED = {
         text="Every key history of length <=3 (quick) / <=4 (thorough) over a 14-key alphabet from an empty and a non-empty history is enumerated, plus 60k/4M seeded histories of up to 47 keys; after every key the real editor's line, cursor, history focus and end-of-line equal RefEditor's, the cursor stays inside the line, nothing panics; the real read() path returns the reference's commands and history.",
         note="Trusted: RefEditor (doc comments of terminal.rs, Vim word rules with adopted end-of-line corner); guarded constructor without history file.",
     ),
+    "C06": dict(
+        category="exploration",
+        ref="DESIGN.md §5 C06, §3.3",
+        technique="deterministic simulation at the process boundary: compile and run as two real processes communicating through a file on a simulated disk that tears, truncates, extends and re-heads the file and injects short/interrupted/failing reads (LD_PRELOAD syscall shim); reference loader predicate and differential run",
+        text="Per generated program: object bytes = origin + library words big-endian; run(.lc3) == run(.asm) in status and program output; every torn length of an image, appended bytes, images ending exactly at / one below / one above the top of memory are accepted or rejected as the reference loader says, never a crash; short reads and EINTR are transparent, EIO is a clean error. Sampling over programs; the torn-length sweep per image is complete.",
+        note="Trusted: faultfs.so interposition, the guard-off binary built from the current tree, library emission as expected bytes.",
+    ),
+    "C08": dict(
+        category="fault_enumeration",
+        ref="DESIGN.md §5 C08, §3.3",
+        technique="deterministic simulation with fault injection at the syscall seam: for each seeded program the single-fault space of `lace compile` is enumerated (assembly failure at every statement position; ENOSPC/EIO/EINTR/sticky/short write at every mutating file-system call; /dev/full; RLIMIT_FSIZE at every byte; uncreatable destinations) plus sampled double faults",
+        text="For every sampled program (half with a planted emission failure at a random statement k) every single fault of the compile process is injected, by ordinal of mutating call measured on a fault-free run, and the all-or-nothing predicate over (exit status, destination before/after) is evaluated; destination pre-existing or absent. Complete over single faults per program, sampled over programs and double faults.",
+        note="Trusted: faultfs.so sees every file-system call on the destination directory; kernel-level faults (/dev/full, RLIMIT_FSIZE) confirm independently of the shim. SIGKILL is not injected (the property speaks of exit statuses).",
+    ),
+    "C19": dict(
+        category="exploration",
+        ref="DESIGN.md §5 C19, §3.4",
+        technique="deterministic simulation of the long-lived watcher: seeded histories of file versions with torn reads, duplicated, coalesced and reverted events executed through the watch closure's call sequence on one thread; each re-check compared with the same text on a fresh thread",
+        text="Histories of 2..14 re-checks (valid, failing in lexer/parser/backpatch/emission, duplicate labels, shifted labels, torn prefixes) on one thread with reset_state between them; every rendered result (origin, words or emission errors, spans, breakpoints, or the diagnostic text) equals a fresh assembly of the same text. Sampling, not proof.",
+        note="Trusted: fresh thread = fresh process (all globals thread-local); the closure's five calls are re-stated in the harness; inotify/debounce are not run.",
+    ),
 }
 
 NOT_APPLICABLE = {
@@ -89,7 +110,7 @@ NOT_APPLICABLE = {
     "C18": "pure function of (flag, program); no stream, fault or history (DESIGN.md §5 C18)",
 }
 
-PENDING = {'C06': 'claimed in DESIGN.md but its check is not built yet in this commit; will move to checks when registered', 'C08': 'claimed in DESIGN.md but its check is not built yet in this commit; will move to checks when registered', 'C19': 'claimed in DESIGN.md but its check is not built yet in this commit; will move to checks when registered', }
+PENDING = {}
 
 def main():
     checks = []
